@@ -115,7 +115,7 @@ def forbidden_scan():
     return bad
 
 
-def proof_leg(pid, extra_targets=()):
+def proof_leg(pid, extra_targets=(), thorough=False):
     """Returns dict(ok, obligations, discharged, theorems, failures[], log)."""
     res = dict(ok=False, obligations=0, discharged=0, theorems=[], failures=[], axioms=[])
     prop_v = os.path.join(COQ, "Props", pid + ".v")
@@ -161,6 +161,19 @@ def proof_leg(pid, extra_targets=()):
         res["failures"].append("Props/%s.v: %d theorems but %d Print Assumptions" % (pid, len(thms), n_pa))
     if res["discharged"] < res["obligations"]:
         res["failures"].append("only %d of %d theorems reported their assumptions" % (res["discharged"], res["obligations"]))
+    if thorough and not res["failures"]:
+        # independent re-check of the compiled property file and everything it depends on
+        rc, out = run(["timeout", "3300", "coqchk", "-silent", "-o", "-Q", ".", "ZenoV", "ZenoV.Props." + pid], cwd=COQ, timeout=3400)
+        m = re.search(r"\* Axioms:\s*(.*?)\n\s*\n", out, flags=re.S)
+        ax = (m.group(1).strip() if m else "?")
+        res["coqchk"] = {"exit": rc, "axioms": ax, "tail": out[-600:]}
+        if rc != 0:
+            res["failures"].append("coqchk failed: " + out[-400:])
+        elif ax != "<none>":
+            names = [a.split(":")[0].strip() for a in ax.split("\n") if a.strip()]
+            bad = [a for a in names if a.split(".")[-1] not in ALLOWED_AXIOMS and a not in ALLOWED_AXIOMS]
+            if bad:
+                res["failures"].append("coqchk reports axioms outside the standard library: " + ", ".join(bad))
     res["ok"] = not res["failures"]
     return res
 
@@ -276,7 +289,7 @@ def run_leg(binary, driver, n, seed, tier, shard=250, corpus=None, single_input=
         except Exception as e:
             lr.errors.append("driver %s wrote no meta: %s" % (driver, e))
             return lr
-        shards = [os.path.join(work, s + ".v") for s in lr.meta.get("shards", [])]
+        shards = [os.path.join(work, s + ".v") for s in (lr.meta.get("shards") or [])]
         with ThreadPoolExecutor(max_workers=jobs or NCPU) as ex:
             results = list(ex.map(eval_shard, shards))
         # a compiled library changed under us (somebody rebuilt part of coq/ meanwhile): rebuild, retry once
@@ -378,7 +391,7 @@ def write_evidence(pid, tier, seed, proof, legs, wall, violations, extra=None, a
     for t in proof.get("theorems", [])[:3]:
         samples.append({"obligation": "Theorem %s (coq/Props/%s.v), Print Assumptions checked" % (t, pid)})
     for l in legs:
-        for s in l.meta.get("samples", [])[:2]:
+        for s in (l.meta.get("samples") or [])[:2]:
             samples.append({"driver": l.driver, "input": s})
     cov = {
         "obligations": proof.get("obligations", 0),
@@ -394,10 +407,11 @@ def write_evidence(pid, tier, seed, proof, legs, wall, violations, extra=None, a
         "correspondence": [
             {"driver": l.driver, "evaluations": l.meta.get("evaluations", 0), "distinct": l.meta.get("distinct", 0),
              "distinct_nontrivial": l.meta.get("distinct_nontrivial", 0), "corpus_cases": l.meta.get("corpus_cases", 0),
-             "input_distribution": l.meta.get("tags", {}), "model_vs_impl_differences": len(l.diffs),
+             "input_distribution": l.meta.get("tags") or {}, "model_vs_impl_differences": len(l.diffs),
              "monitor_failures": len(l.mons), "errors": l.errors, "notes": l.meta.get("notes") or [],
              "wall_s": round(l.wall, 2)} for l in legs],
         "proof_failures": proof.get("failures", []),
+        "coqchk": proof.get("coqchk", "not run in this tier (thorough tier runs `coqchk -silent -o` on the property file's closure)"),
     }
     if extra:
         cov.update(extra)
